@@ -29,6 +29,10 @@ type sortCase struct {
 	// History: "resort-neg" = Sort(orders), then the key column k is overwritten by -k (Apply), then Sort(orders)
 	// again; "resort-copy" = the key is overwritten by Copy(k <- id); "resort-filter" = Sort, Filter(k != first value), Sort
 	History string `json:"history,omitempty"`
+	// Gen: the frame is generated: "int:<n>" (n rows, key k = (r*7919) mod 701, second key k2 = r mod 3),
+	// "enum:<n>:<card>" (enum key with <card> declared values v000.. in a non-alphabetical declared order,
+	// every value used, nulls at every 29th row)
+	Gen string `json:"gen,omitempty"`
 	// Seam: "" = public API; "quick" = real quickSort entered with Depth on
 	// [A,B); "heap" = real heapSort on [A,B).
 	Seam  string `json:"seam,omitempty"`
@@ -184,7 +188,40 @@ func checkSorted(in, out model.Frame, orders []ordSpec) *core.Failure {
 	return nil
 }
 
+func genSortFrame(gen string) model.Frame {
+	var n, card int
+	k := model.Col{Name: "k", Kind: model.Int}
+	k2 := model.Col{Name: "k2", Kind: model.Int}
+	id := model.Col{Name: "id", Kind: model.Int}
+	if _, err := fmt.Sscanf(gen, "int:%d", &n); err == nil {
+		for r := 0; r < n; r++ {
+			k.Cells = append(k.Cells, model.I((r*7919)%701))
+		}
+	} else if _, err := fmt.Sscanf(gen, "enum:%d:%d", &n, &card); err == nil {
+		k.Kind = model.Enum
+		k.EnumVals = make([]string, card)
+		for i := range k.EnumVals {
+			k.EnumVals[i] = fmt.Sprintf("v%03d", (i*73)%card)
+		}
+		for r := 0; r < n; r++ {
+			if r%29 == 28 {
+				k.Cells = append(k.Cells, model.Null())
+			} else {
+				k.Cells = append(k.Cells, model.S(k.EnumVals[(r*37)%card]))
+			}
+		}
+	}
+	for r := 0; r < n; r++ {
+		k2.Cells = append(k2.Cells, model.I(r%3))
+		id.Cells = append(id.Cells, model.I(r))
+	}
+	return model.Frame{N: n, Cols: []model.Col{k, k2, id}}
+}
+
 func runSortCase(c sortCase) *core.Failure {
+	if c.Gen != "" {
+		c.Frame = genSortFrame(c.Gen)
+	}
 	c.Frame.Fix()
 	if c.Seam != "" {
 		return runSortSeam(c)
@@ -491,6 +528,26 @@ func c03Run(ctx *core.Ctx) {
 			})
 		}
 	}
+	// Layer 5: sizes and cardinalities (generated frames): row counts around powers of two up to 10001,
+	// enum keys with up to 255 declared values so that codes beyond 127 are compared with small ones
+	var gens []string
+	for _, n := range []int{100, 255, 256, 257, 1000, 4095, 4096, 4097, 5002, 10001} {
+		gens = append(gens, fmt.Sprintf("int:%d", n))
+	}
+	for _, card := range []int{127, 128, 129, 200, 255} {
+		gens = append(gens, fmt.Sprintf("enum:%d:%d", card+40, card), fmt.Sprintf("enum:%d:%d", 6, card))
+	}
+	for _, g := range gens {
+		for _, o := range [][]ordSpec{{{Col: "k"}, {Col: "k2"}}, {{Col: "k", Reverse: true, NullLast: true}}, {{Col: "k2"}, {Col: "k", Reverse: true}}} {
+			for _, shape := range []int{model.ShapeIdentity, model.ShapeSparsePerm, model.ShapeReversed} {
+				if !ctx.Mine() {
+					continue
+				}
+				exec(sortCase{Layer: "L5", Gen: g, Orders: o, Shape: shape}, true)
+				ctx.Outcome("L5/sizes-cardinalities")
+			}
+		}
+	}
 	// Layer 3: heapsort fallback and depth budget, through the seam
 	maxSeq, maxPerm := 8, 6
 	if !ctx.Quick() {
@@ -639,9 +696,9 @@ func init() {
 		ID:    "C03",
 		Level: "model_checking",
 		Rule: "case = (frame cells, index shape, order list[, seam entry]) enumerated exhaustively per layer " +
-			"(L1: all frames n<=N over per-type alphabets of 3-5 values + null (int extremes of opposite sign, strings that are prefixes of each other, -0 and +0) x {0,1} second key x all 40 order lists over two columns + 12 lists naming a column twice with other flags x 7 index shapes; " +
-			"L2: all int sequences over {0,1} and {0,1,2} up to the stated lengths (all 7 index shapes for lengths 11..15, one rotating shape otherwise), ninther-size base patterns on all shapes in both directions with all <=2 point deviations; " +
-			"L4: Sort, then overwrite the key (Apply k := -k / Copy k <- id) or filter, then the same Sort again, on all sequences over {0,1,2} up to 6 rows and {0,1} for 13..15 rows; " +
+			"(L1: all frames n<=N over per-type alphabets of 3-5 values + null (int extremes of opposite sign, strings that are prefixes of each other, -0 and +0) x {0,1} second key x all 40 order lists over two columns + 12 lists naming a column twice with other flags x 8 index shapes; " +
+			"L2: all int sequences over {0,1} and {0,1,2} up to the stated lengths (all 8 index shapes for lengths 11..15, one rotating shape otherwise), ninther-size base patterns on all shapes in both directions with all <=2 point deviations; " +
+			"L5: generated frames of 100..10001 rows (int keys) and enum keys with 127..255 declared values on 6 and card+40 rows; L4: Sort, then overwrite the key (Apply k := -k / Copy k <- id) or filter, then the same Sort again, on all sequences over {0,1,2} up to 6 rows and {0,1} for 13..15 rows; " +
 			"L3: real quickSort/heapSort entered through the seam on all small sequences/permutations and sub-ranges, plus adversarial inputs). " +
 			"Non-trivial = the keys hold at least two distinct values (L1) / length >= 2 (others); distinct by enumeration index.",
 		Assumptions: []string{
